@@ -980,6 +980,13 @@ func (e *Exec) sxCall(env *SpecEnv, n *ast.CallExpr) SVal {
 			return SVal{T: sel(sel(e.hget(env.heap(), vlen), b), e.mat(env, e.sx(env, n.Args[1]))), Typ: intT}
 		}
 		return SVal{T: sel(sel(sel(e.hget(env.heap(), val), b), e.mat(env, e.sx(env, n.Args[1]))), e.mat(env, e.sx(env, n.Args[2]))), Typ: types.Typ[types.Byte]}
+	case "lastret":
+		// lastret("F"): the (first, integer-like) result of the most recent call of the contracted function F
+		lit, ok := n.Args[0].(*ast.BasicLit)
+		if !ok {
+			return e.specErr(env, n, "lastret needs a string literal")
+		}
+		return SVal{T: e.hget(env.heap(), e.heapMap("GS_ret."+sanitize(strings.Trim(lit.Value, "\"")), "Int")), Typ: intT}
 	case "calls":
 		// calls("F"): how often the contracted function F has been called on this path so far
 		lit, ok := n.Args[0].(*ast.BasicLit)
